@@ -15,18 +15,18 @@ import (
 
 // Ctx is shared by all rules of one run.
 type Ctx struct {
-	P     *prog.Program
-	Tier  string
-	Notes []string // informational lines for the evidence
-	reach map[string]*prog.Reach
-	dyn   *dynTyper
-	Stats map[string]int
-	tabd     *tabData
-	immE     *immEngine
-	joinCache map[*ssa.Function]bool
+	P              *prog.Program
+	Tier           string
+	Notes          []string // informational lines for the evidence
+	reach          map[string]*prog.Reach
+	dyn            *dynTyper
+	Stats          map[string]int
+	tabd           *tabData
+	immE           *immEngine
+	joinCache      map[*ssa.Function]bool
 	unsortedResult map[*ssa.Function]bool
-	VerifDir string
-	Seed     int
+	VerifDir       string
+	Seed           int
 }
 
 func NewCtx(p *prog.Program, tier string) *Ctx {
